@@ -1,4 +1,5 @@
 import TT.Model.UdpFlows
+import TT.Model.UdpSocks
 namespace TT.Driver
 open TT.UdpFlows
 
@@ -43,8 +44,41 @@ def c07Run (c : Cfg) (nd : Nat) (ops : List Op) : String := Id.run do
     i := i + 1
   return " | ".intercalate outs.toList
 
+/-- the same line for the SOCKS5 forwarder's multiplexer (descriptors are not compared there: the
+proxy of the suite lives in the same process) -/
+def c07SocksRun (c : Cfg) (nd : Nat) (ops : List Op) : String := Id.run do
+  let mut s := TT.UdpSocks.init c
+  let mut outs : Array String := #[]
+  let mut i := 0
+  for op in ops do
+    let seq := i % 250
+    let (s', o) := TT.UdpSocks.step c s op
+    match op with
+    | .close =>
+      outs := outs.push s!"closed:err:UnexpectedEof g{s'.gauge} o-"
+      s := s'
+      break
+    | _ =>
+      let srv := o.srv.map fun (d, m, l) => s!"{d}/{c07Flow nd m}.{seq}.{l}"
+      let cli := o.cli.map fun (lm, m, l) => s!"{c07Flow nd lm}/{c07Flow nd m}.{seq}.{l}"
+      outs := outs.push s!"S[{",".intercalate srv}] C[{",".intercalate cli}] g{s'.gauge} t{s'.flows} o- u{s'.up} v{s'.down} f{if s'.finished then 1 else 0}"
+      s := s'
+    i := i + 1
+  return " | ".intercalate outs.toList
+
 def c07 (toks : List String) : String :=
   match toks with
+  | ["socks", t, k, _s, ops] =>
+    match kv "T=" t, kv "K=" k, kv "ops=" ops with
+    | some t, some k, some ops =>
+      match t.toNat?, k.toList.mapM parseKind with
+      | some t, some kinds =>
+        let nd := kinds.length
+        match (ops.splitOn ";").mapM (parseC07Op nd) with
+        | some ops => c07SocksRun { timeout := t, kinds := kinds } nd ops
+        | none => "bad-op"
+      | _, _ => "bad-op"
+    | _, _, _ => "bad-op"
   | ["run", t, k, _s, ops] =>
     match kv "T=" t, kv "K=" k, kv "ops=" ops with
     | some t, some k, some ops =>
